@@ -695,6 +695,17 @@ def _c08(tier, seed):
                             note="union %d fields default=%s expr=%s" % (nf, NAMES[mark], withexpr), default={"new": form % 2 == 0})
                 P.tags["mk"] = "pub fn mk<Z9: Src>(s: &mut Z9) -> TI { U { %s: <%s as Default>::default() } }" % (NAMES[0], tys[0])
                 out.append(P)
+    # a field whose NAME is also the name of a free function that a later field's expression calls: the call means the function
+    for sp in ("Default(expression = handler())", "Default = handler()"):
+        form += 1
+        fs = [Field("handler", "fn() -> u8", attrs=["Default(expression = crate::m::quiet)"], default={"src": "crate::m::quiet", "expected": "(crate::m::quiet as fn() -> u8)", "verus": False}),
+              Field("banner", "u8", attrs=[sp], default={"src": "handler()", "expected": "7u8", "verus": False}),
+              Field("quiet", "u8", default={"src": None, "expected": "0u8", "verus": False})]
+        P = Program(c.pid(), "struct", "S", [Variant(None, "named", fs)], def_traits(form % 2 == 0, form), focus={"Default"},
+                    note="struct whose field `handler` is named like the free function a later expression calls (%s)" % sp, default={"new": form % 2 == 0})
+        P.tags["pre_items"] = "use crate::m::handler;\n"
+        out.append(P)
+
     return out
 
 
@@ -1643,13 +1654,12 @@ def c14(tier, seed):
                             note="C14 Debug type=`%s` key=`%s` ignore=`%s`" % (tsp2, ksp2, isp), debug={"name": tnm, "named_field": None}))
     for j, (nsp, nv) in enumerate([("name = false", False), ("name(false)", False), ("rename = false", False), ("name = true", True), ("name(true)", True)]):
         for k, (fsp, fv) in enumerate([("named_field = true", True), ("named_field(true)", True), ("named_field = false", False), ("named_field(false)", False)]):
-            if nv is False and fv is True:
-                continue     # nameless struct style: debug_map form (outside Verus)
-            order = (j + k) % 2
-            meta = "Debug(%s)" % ", ".join([nsp, fsp] if order else [fsp, nsp])
-            fs = [Field(None, "T0", debug={}), Field(None, "T0", debug={})]
-            add(Program(c.pid(), "struct", "S", [Variant(None, "tuple", fs)], [meta], generics=["T0"], inst={"T0": "u8"}, focus={"Debug"},
-                        note="C14 Debug `%s`" % meta, debug={"name": "default" if nv else False, "named_field": fv}))
+            # (nameless + named style is the map form: inside Verus through the hoisting transform; both orders of the two parameters)
+            for order in ((0, 1) if (nv is False and fv is True) else ((j + k) % 2,)):
+                meta = "Debug(%s)" % ", ".join([nsp, fsp] if order else [fsp, nsp])
+                fs = [Field(None, "T0", debug={}), Field(None, "T0", debug={})]
+                add(Program(c.pid(), "struct", "S", [Variant(None, "tuple", fs)], [meta], generics=["T0"], inst={"T0": "u8"}, focus={"Debug"},
+                            note="C14 Debug `%s`" % meta, debug={"name": "default" if nv else False, "named_field": fv}))
     # variant level name forms in an enum
     for j, vsp in enumerate(["Debug = Vv", 'Debug = "Vv"', "Debug(name = Vv)", "Debug(name(Vv))", "Debug(rename = Vv)", 'Debug(rename("Vv"))',
                              "Debug = r#loop", 'Debug = "r#loop"', "Debug(name = r#loop)", "Debug(name(r#loop))", 'Debug(rename("r#loop"))']):
